@@ -766,6 +766,29 @@ def a2(ctx, res):
         if "Union[" in t and any(is_ann(x) for x in ast.walk(e) if isinstance(x, ast.expr)) and "join" in t:
             return "Union of all"
         return "other:" + t[:60]
+    # positive evidence of a narrowed union: the annotations are collected from a FILTERED selection of the branches
+    narrowed = []
+    for b in builders(vca):
+        if not (isinstance(b.elt, ast.Attribute) and b.elt.attr == "annotation" and norm(b.elt.value) == norm(b.target)):
+            continue
+        src = b.iter
+        if norm(src) == "self.elements" and b.guards:
+            narrowed.append("if " + " and ".join(b.guard_texts()))
+        srcs = [src]
+        if isinstance(src, ast.Name):
+            srcs += [st.value for st in walk_own(vca) if isinstance(st, ast.Assign) and any(norm(t) == src.id for t in st.targets)]
+        for e_ in srcs:
+            for x in ast.walk(e_):
+                if isinstance(x, (ast.ListComp, ast.GeneratorExp)) and len(x.generators) == 1 and x.generators[0].ifs \
+                        and norm(x.generators[0].iter) == "self.elements" and norm(x.elt) == norm(x.generators[0].target):
+                    narrowed.append(norm(x)[:100])
+                if isinstance(x, ast.Call) and dotted(x.func) == "filter" and len(x.args) == 2 and norm(x.args[1]) == "self.elements" \
+                        and norm(x.args[0]) != "None":
+                    narrowed.append(norm(x)[:100])
+    if narrowed:
+        res.judge(False, ca, "annotations of ALL self.elements (no branch filtered out)", detail={"selection": narrowed},
+                  reason="a branch that can build the result (for example a `not` branch, which returns every value its inner "
+                         "schema rejects) is left out of the union: the annotation no longer covers the values held")
     table, opaque = decision_table(vca, ["ONE", "ANY"], rec_c, lab_c)
     want = {(True, True): {"the single annotation"}, (True, False): {"the single annotation"},
             (False, True): {"Any"}, (False, False): {"Union of all"}}
